@@ -381,7 +381,7 @@ func StandardStreams(seed int64) []*Stream {
 	var out []*Stream
 	{ // PAT, PMT, video (unbounded) and audio (bounded) PES, interleaved
 		cc := map[uint16]*uint8{0: new(uint8), 0x1000: new(uint8), 0x100: new(uint8), 0x101: new(uint8)}
-		pat, pmt := modelPAT(1, 0x1000), modelPMT(1, 0x100, 2)
+		pat, pmt := modelPAT(0, 0x10, 1, 0x1000), modelPMT(1, 0x100, 2) // network entry (program_number 0) in front of the programme
 		uPAT := PSIUnit(0, 0, [][]byte{SecPAT(pat, ref.SecHdr{CNI: true})}, []ExpData{{Kind: "PAT", Table: pat}})
 		uPMT := PSIUnit(0x1000, 0, [][]byte{SecPMT(pmt, ref.SecHdr{CNI: true, Version: 3})}, []ExpData{{Kind: "PMT", Table: pmt}})
 		v1 := PESUnit(0x100, 0xe0, pesPayload(1, 300, seed), 90000, false)
